@@ -239,6 +239,8 @@ def run_check(ctx):
 
     # ---- 2. generated headers through interrogate ------------------------------------------------------
     H = _idbm.single_headers()
+    if "C11-wstring-atomic-string" in ctx.known:
+        H["wstr0"] = _idbm.WSTR0        # reproduces that finding; part of the header set once the finding is listed
     hd = os.path.join(work, "h")
     os.makedirs(hd)
     open(os.path.join(hd, "vdefs.h"), "w").write(_idbm.VDEFS)
@@ -254,11 +256,20 @@ def run_check(ctx):
         return j, tag, r, args
     dbs = []
     rejected = 0
+    removed = {}
     for (n, b, o), tag, r, args in run.pmap(gen, jobs):
         if r.rc != 0 or r.timed_out or not r.outputs.get(tag + ".in"):
             rejected += 1        # the tool does not accept the combination: outside the property's domain
             continue
         dbs.append((tag, n, b, o))
+        k = r.stderr.count("Attempt to define invalid type")
+        if k:
+            removed[tag] = k
+    # the builder's remove_type path (a type it began to define and then erased: index space with holes)
+    ctx.notes["runs_in_which_the_builder_removed_a_type"] = len(removed)
+    ctx.notes["types_removed_by_the_builder"] = sum(removed.values())
+    if not removed:
+        raise MachineryError("no generated header made the builder remove a type it began to define")
     if len(dbs) < len(jobs) // 2:
         raise MachineryError("interrogate rejected %d of %d generated inputs" % (rejected, len(jobs)))
     ctx.notes["inputs_rejected_by_tool"] = rejected
@@ -296,6 +307,10 @@ def run_check(ctx):
     cover = _idbm.field_coverage([raws[t] for t in raws if not raws[t]["err"]])
     ctx.notes["index_field_coverage"] = cover
     ctx.notes["ground_truth_links_checked"] = ntruth
+    holes = sum(1 for t in raws if any((x["fl"] & 0x180) == 0x180 and x["wrapped"] == 0 for x in raws[t]["t"]))
+    ctx.notes["databases_with_a_pointer_to_a_removed_type"] = holes
+    if not holes:
+        raise MachineryError("no database contains a pointer type whose target the builder removed")
     never = sorted(k for k, v in cover.items() if v == 0)
     if never:
         raise MachineryError("index-valued fields never exercised by the generated headers: %s" % never)
@@ -396,9 +411,14 @@ UNRECORDED = re.compile(r"^\s*(?:const\s+)?(?:unsigned\s+|signed\s+)?(?:int|floa
 
 
 def classes_of(header_text, opts):
+    out = []
     if ("-fptrs" in opts or "-unique-names" in opts) and UNRECORDED.search(header_text):
-        return ["C11-fptrs-unrecorded-wrapper"]
-    return []
+        out.append("C11-fptrs-unrecorded-wrapper")
+    # -string is always given by this check: a wide-character string parameter / return is recorded as the atomic
+    # string type, which for the C calling convention means (const char *)
+    if re.search(r"\bwchar_t\b|\bwstring\b", header_text):
+        out.append("C11-wstring-atomic-string")
+    return out
 
 
 TABLE = re.compile(r"static void \*_in_fptrs\[\d+\] = \{(.*?)\};", re.S)
